@@ -1808,6 +1808,17 @@ def c12(rep, tier):
     pname = prios_name(am)
 
     accumulated = []
+    loop_local_decls, grown_in_loops = set(), set()
+    for st_l in walk_stmts(am['body']):
+        if st_l['k'] in ('rangefor', 'for', 'while', 'do'):
+            for st_i in walk_stmts(st_l.get('body')):
+                if st_i['k'] == 'decl':
+                    loop_local_decls.update(v_.get('d') for v_ in st_i['vars'])
+            for x_ in walk_all_exprs(st_l.get('body')):
+                if (is_call(x_, '::insert') or is_call(x_, '::push_back') or is_call(x_, '::emplace_back')) and x_.get('obj') is not None:
+                    o_ = strip_casts(x_['obj'])
+                    if o_.get('k') == 'ref' and o_.get('dk') == 'var':
+                        grown_in_loops.add(o_.get('d'))
 
     def no_conflict(c, depth=0):
         """+1: c is true iff the detector has no conflict error; -1: true iff it has one; None: unrelated/unknown"""
@@ -1826,6 +1837,11 @@ def c12(rep, tier):
             if (is_call(x, '::empty') or is_call(x, '::size')) and x.get('obj') is not None:
                 o = strip_casts(x['obj'])
                 if o.get('k') == 'member' and o.get('name') == 'errors' and 'MacroApplicationResult' in (strip_casts(o['base']).get('cty') or ''):
+                    accumulated.append(c)
+                    return None
+                # ... or a local error list that lives across the iterations of the collecting loop and is extended inside it (seed C12k-1)
+                if o.get('k') == 'ref' and o.get('dk') == 'var' and 'ParseError' in (o.get('cty') or '') and o.get('d') not in loop_local_decls \
+                        and o.get('d') in grown_in_loops:
                     accumulated.append(c)
                     return None
         if is_call(c, '::empty') and about:
